@@ -477,3 +477,86 @@ def job_w3(j):
     finally:
         shutil.rmtree(tmp, ignore_errors=True)
     return col.result()
+
+
+@job("imbricated")
+def job_imbricated(j):
+    """DAG executions started from inside node functions of another DAG (also setup() called inside a setup node): every
+    operation must return (bounded progress; a hang is judged by the watchdog's stack samples) with the right values."""
+    from tawazi import dag, xn
+
+    from .sym import same, short
+
+    rng = random.Random(j["seed"])
+    col = Collector()
+    for k in range(j["n_cases"]):
+        mc_in, mc_out = rng.randint(1, 3), rng.randint(1, 3)
+        a = xn(probes.mkprobe("im_a%d" % k))
+        b = xn(probes.mkprobe("im_b%d" % k))
+        s_in = xn(setup=True)(probes.mkprobe("im_sin%d" % k))
+
+        def inner_fn(x):
+            m = s_in("m")
+            return b(a(x), m)
+
+        inner_fn.__name__ = inner_fn.__qualname__ = "im_inner%d" % k
+        inner = dag(max_concurrency=mc_in)(inner_fn)
+        calls_setup = rng.random() < 0.5
+
+        def body_setup(tag):
+            if calls_setup:
+                inner.setup()  # a setup node whose body sets up another DAG
+            return ("ready", tag)
+
+        def body_run(x, m):
+            return ("ran", inner(x), m)  # a node whose body runs another DAG
+
+        body_setup.__name__ = body_setup.__qualname__ = "im_osetup%d" % k
+        body_run.__name__ = body_run.__qualname__ = "im_orun%d" % k
+        from tawazi import Resource
+
+        # only pooled nodes can run another (sync) DAG: a main-thread node runs inside the scheduler's event loop, where
+        # asyncio.run is not allowed (limitation of the sync flavour, not judged here)
+        o_setup = xn(setup=True, resource=Resource.thread)(body_setup)
+        o_run = xn(resource=Resource.thread)(body_run)
+        nrun = rng.randint(1, 3)
+
+        def outer_fn(x):
+            m = o_setup("t")
+            return tuple(o_run(x, m) for _ in range(nrun))
+
+        outer_fn.__name__ = outer_fn.__qualname__ = "im_outer%d" % k
+        outer = dag(max_concurrency=mc_out)(outer_fn)
+        rp = {"kind": "rerun_job", "job": dict(j, n_cases=k + 1)}
+        ops = rng.sample(["setup", "call", "call", "executor"], rng.randint(2, 4))
+        for op in ops:
+            x = Sym("arg", k, op)
+            B.reset_log()
+            if op == "setup":
+                r = probes.run_op("setup_with_nested_setup", lambda: outer.setup())
+            elif op == "call":
+                r = probes.run_op("call_with_nested_calls", lambda: outer(x))
+            else:
+                r = probes.run_op("executor_with_nested_calls", lambda: outer.executor()(x))
+            col.evaluations += 1
+            col.counters["imbricated_operations"] += 1
+            col.generic(B.snapshot(), rp)
+            if r[0] != "ok":
+                col.violation("C09", "operation_with_nested_execution_raised", dict(op=op, exc=repr(r[1])[:300], nested_setup=calls_setup), rp)
+                break
+            if op != "setup":
+                exp_inner = None
+                with probes.RefMode():
+                    exp_inner = b.exec_function(a.exec_function(x), s_in.exec_function("m"))
+                got = r[1]
+                ok = isinstance(got, tuple) and len(got) == nrun and all(isinstance(g, tuple) and g[0] == "ran" and same(g[2], ("ready", "t")) for g in got)
+                if ok:
+                    # the setup probe carries an invocation number: compare the inner value modulo that number
+                    ok = all(repr(g[1]).split("('inv'")[0] == repr(exp_inner).split("('inv'")[0] for g in got)
+                if not ok:
+                    col.violation("C01", "nested_execution_returned_wrong_value", dict(op=op, got=short(got, 300), expected_inner=short(exp_inner, 200)), rp)
+        col.hashes.add(S.spec_hash({"imbricated": k % 13, "ops": ops, "mc": [mc_in, mc_out], "ns": calls_setup}))
+        if k % 10 == 0:
+            col.sample({"workload": "DAG executions inside node functions", "outer_ops": ops, "setup_node_calls_inner_setup": calls_setup,
+                        "max_concurrency": [mc_in, mc_out]})
+    return col.result()
